@@ -328,9 +328,9 @@ fn judge(w: &World, si: usize, from: SocketAddr, now: Duration, id: u64, addr: S
                 (2, "C05/connected/token-not-presented-from-address".into(), format!("client {} connected at {} but token #{} (same id and user data) was never presented from there", id, a(addr), ti))
             } else if !from_addr.iter().any(|p| p.1.as_secs() < t.m.expire) {
                 (3, "C05/connected/expired-token".into(), format!("token #{} (expire {}) was presented from {} only at server seconds {:?}", ti, t.m.expire, a(addr), from_addr.iter().map(|p| p.1.as_secs()).collect::<Vec<_>>()))
-            } else if now.as_secs() > t.m.expire {
-                // half-open sessions end when their token expires (the server drops them at the first update at which
-                // floor(t) > expire), so a late response cannot turn an expired token into a connection
+            } else if now.as_secs() >= t.m.expire {
+                // the token is expired from second `expire` on (a request presented then is refused); half-open sessions
+                // end when their token expires, so a late response cannot turn an expired token into a connection
                 (3, "C05/connected/expired-token-at-response".into(), format!("token #{} expired at {} but its response connected at server second {}", ti, t.m.expire, now.as_secs()))
             } else if w.first_presented.get(&(si, ti)) != Some(&addr) && w.first_answered.get(&(si, ti)) != Some(&addr) {
                 (4, "C05/connected/token-used-from-other-address".into(), format!("token #{} was first used from {:?}, now connected from {}", ti, w.first_presented.get(&(si, ti)).map(|x| a(*x)), a(addr)))
@@ -746,14 +746,19 @@ pub fn one_run(ctx: &Ctx, out: &mut Outcome, run_seed: u64) {
                 if let Some(b) = request(&mut w, ctx, out, 0, t, x, "request-short-lived") {
                     // the clock passes the expiry in one step or in many sub-second steps (frame-sized updates)
                     let step = *r.pick(&[2100u64, 1050, 700, 100, 16, 999, 1]);
-                    let mut left = 2100u64;
+                    // 1000 ms lands inside the expiry second itself, 2100 ms beyond it
+                    let total = *r.pick(&[1000u64, 2100]);
+                    if total == 1000 {
+                        out.count("late_response_in_expiry_second");
+                    }
+                    let mut left = total;
                     while left > 0 {
                         let d = step.min(left);
                         w.srv[0].update(Duration::from_millis(d));
                         w.srv[1].update(Duration::from_millis(d));
                         left -= d;
                     }
-                    w.hist.push(format!("srv update 2100 ms in steps of {} ms", step));
+                    w.hist.push(format!("srv update {} ms in steps of {} ms", total, step));
                     if step < 1000 {
                         out.count("late_response_subsecond_steps");
                     }
